@@ -27,6 +27,14 @@ type Clause struct {
 
 type LoopGhost struct {
 	Name, Init, Step string
+	Type string // "" = int; otherwise a type string (e.g. smt:(Array Int Int))
+}
+
+func (g LoopGhost) goType(eng *Engine, pkg *types.Package) types.Type {
+	if g.Type == "" {
+		return tInt
+	}
+	return eng.resolveTypeString(g.Type, pkg)
 }
 
 type LoopSpec struct {
@@ -252,12 +260,12 @@ func (eng *Engine) loadContractFile(root, path string) error {
 		case "ghost":
 			if curLoop != nil {
 				// loop ghost: name = init step expr
-				re := regexp.MustCompile(`^(\w+)\s*=\s*(.*?)\s+step\s+(.*)$`)
+				re := regexp.MustCompile(`^(\w+)\s*(smt:\([^=]*\)|[A-Za-z_][\w.\[\]*]*)?\s*=\s*(.*?)\s+step\s+(.*)$`)
 				m := re.FindStringSubmatch(rest)
 				if m == nil {
-					return fmt.Errorf("%s:%d: loop ghost syntax: ghost k = init step expr", path, ln.n)
+					return fmt.Errorf("%s:%d: loop ghost syntax: ghost k [type] = init step expr", path, ln.n)
 				}
-				curLoop.Ghosts = append(curLoop.Ghosts, LoopGhost{m[1], m[2], m[3]})
+				curLoop.Ghosts = append(curLoop.Ghosts, LoopGhost{Name: m[1], Type: strings.TrimSpace(m[2]), Init: m[3], Step: m[4]})
 				continue
 			}
 			// ghost name Type
@@ -403,6 +411,15 @@ func rewriteArrows(s string) string {
 			}
 		}
 	}
+	// a quantifier that is not at the start extends to the end of the expression
+	for _, q := range []string{"forall ", "exists "} {
+		if p := findTop(s, q); p > 0 && !isIdentChar(s[p-1]) && strings.Contains(s[p:], "::") {
+			qs := rewriteArrows(s[p:])
+			ph := "Q__PLACEHOLDER__Q"
+			out := rewriteArrows(s[:p] + ph)
+			return strings.Replace(out, ph, qs, 1)
+		}
+	}
 	if i := findTop(s, "<==>"); i >= 0 {
 		return fmt.Sprintf("iff(%s, %s)", rewriteArrows(s[:i]), rewriteArrows(s[i+4:]))
 	}
@@ -443,6 +460,10 @@ func rewriteArrows(s string) string {
 		return b.String()
 	}
 	return s
+}
+
+func isIdentChar(c byte) bool {
+	return c == '_' || c >= 'a' && c <= 'z' || c >= 'A' && c <= 'Z' || c >= '0' && c <= '9'
 }
 
 func findTop(s, tok string) int {
@@ -703,7 +724,8 @@ func (e *Env) localVar(name string) (TV, bool) {
 	if e.loop != nil && e.loop.spec != nil {
 		for _, g := range e.loop.spec.Ghosts {
 			if g.Name == name {
-				return TV{T: u.heap(e.st, loopGhostHeap(e.fn, e.loop, name), SInt), Ty: tInt}, true
+				gt := g.goType(u.eng, e.fn.Pkg.Pkg)
+				return TV{T: u.heap(e.st, loopGhostHeap(e.fn, e.loop, name), u.ty.sortOf(gt)), Ty: gt}, true
 			}
 		}
 	}
@@ -721,6 +743,20 @@ func (e *Env) localVar(name string) (TV, bool) {
 			}
 		}
 	}
+	// loop ghosts are visible after their loop under their own name
+	if con := u.eng.contractFor(e.fn); con != nil || (e.fn == u.top && u.con != nil) {
+		if e.fn == u.top {
+			con = u.con
+		}
+		for ord, ls := range con.Loops {
+			for _, g := range ls.Ghosts {
+				if g.Name == name {
+					gt := g.goType(u.eng, e.fn.Pkg.Pkg)
+					return TV{T: u.heap(e.st, fmt.Sprintf("lg$%s$%d$%s", mangle(e.fn.Name()), ord, name), u.ty.sortOf(gt)), Ty: gt}, true
+				}
+			}
+		}
+	}
 	for _, p := range e.fn.Params {
 		if p.Name() == name {
 			if lv, ok := e.st.lvs[p]; ok {
@@ -732,6 +768,30 @@ func (e *Env) localVar(name string) (TV, bool) {
 		}
 	}
 	vals := u.eng.debugVals(e.fn)[name]
+	// the merged (phi) value of a variable wins over individual assignments
+	var lastPhi *ssa.Phi
+	for _, b := range e.fn.Blocks {
+		for _, ins := range b.Instrs {
+			if p, ok := ins.(*ssa.Phi); ok && p.Comment == name {
+				if _, ok := e.st.regs[p]; ok {
+					lastPhi = p
+				}
+			}
+		}
+	}
+	if lastPhi != nil {
+		return TV{T: e.st.regs[lastPhi], Ty: lastPhi.Type()}, true
+	}
+	// the variable exists in the function but is not defined on this path (e.g. a
+	// postcondition evaluated at an early return): an arbitrary value of its type
+	for _, b := range e.fn.Blocks {
+		for _, ins := range b.Instrs {
+			if p, ok := ins.(*ssa.Phi); ok && p.Comment == name {
+				c := u.s.declConst("undef$"+mangle(e.fn.Name()+"$"+name), u.ty.sortOf(p.Type()))
+				return TV{T: c, Ty: p.Type()}, true
+			}
+		}
+	}
 	var cands []TV
 	seen := map[ssa.Value]bool{}
 	for _, dv := range vals {
@@ -760,6 +820,15 @@ func (e *Env) localVar(name string) (TV, bool) {
 	if len(cands) == 0 {
 		return TV{}, false
 	}
+	// the merged (phi) value of the variable wins over the constants assigned to it
+	for i := len(vals) - 1; i >= 0; i-- {
+		if p, ok := vals[i].v.(*ssa.Phi); ok && p.Comment == name {
+			if t, ok := e.st.regs[p]; ok {
+				return TV{T: t, Ty: p.Type()}, true
+			}
+		}
+	}
+
 	// several SSA values for one source variable: they must agree textually
 	for _, c := range cands[1:] {
 		if c.T != cands[0].T {
@@ -1093,6 +1162,44 @@ func (e *Env) callExpr(x *ast.CallExpr) TV {
 		fn := map[string]string{"strings.HasPrefix": "str_hasprefix", "strings.HasSuffix": "str_hassuffix", "strings.Contains": "str_contains"}[name]
 		u.s.declFun(fn, []Sort{SStr, SStr}, SBool)
 		return TV{T: sx(fn, a.T, b.T), Ty: tBool}
+	case "cutBefore", "cutAfter", "cutFound":
+		a, b := e.eval(x.Args[0]), e.eval(x.Args[1])
+		u.s.declFun("str_cut_before", []Sort{SStr, SStr}, SStr)
+		u.s.declFun("str_cut_after", []Sort{SStr, SStr}, SStr)
+		u.s.declFun("str_cut_found", []Sort{SStr, SStr}, SBool)
+		switch name {
+		case "cutBefore":
+			return TV{T: sx("str_cut_before", a.T, b.T), Ty: tString}
+		case "cutAfter":
+			return TV{T: sx("str_cut_after", a.T, b.T), Ty: tString}
+		}
+		return TV{T: sx("str_cut_found", a.T, b.T), Ty: tBool}
+	case "splitN":
+		a, b := e.eval(x.Args[0]), e.eval(x.Args[1])
+		u.s.declFun("str_split_n", []Sort{SStr, SStr}, SInt)
+		return TV{T: sx("str_split_n", a.T, b.T), Ty: tInt}
+	case "splitAt":
+		a, b, c := e.eval(x.Args[0]), e.eval(x.Args[1]), e.eval(x.Args[2])
+		u.s.declFun("str_split_at", []Sort{SStr, SStr, SInt}, SStr)
+		return TV{T: sx("str_split_at", a.T, b.T, c.T), Ty: tString}
+	case "parseUintOK":
+		a := e.eval(x.Args[0])
+		u.s.declFun("str_parseuint_ok", []Sort{SStr}, SBool)
+		return TV{T: sx("str_parseuint_ok", a.T), Ty: tBool}
+	case "parseUint":
+		a := e.eval(x.Args[0])
+		u.s.declFun("str_parseuint", []Sort{SStr}, SInt)
+		return TV{T: sx("str_parseuint", a.T), Ty: types.Typ[types.Uint64]}
+	case "validHex":
+		a := e.eval(x.Args[0])
+		u.s.declFun("str_validhex", []Sort{SStr}, SBool)
+		return TV{T: sx("str_validhex", a.T), Ty: tBool}
+	case "unhex":
+		a := e.eval(x.Args[0])
+		return TV{T: sx("unhex", a.T), Ty: types.NewSlice(types.Typ[types.Byte])}
+	case "hexstr":
+		a := e.eval(x.Args[0])
+		return TV{T: sx("hexstr", a.T), Ty: tString}
 	case "strings.TrimSpace":
 		a := e.eval(x.Args[0])
 		u.s.declFun("str_trimspace", []Sort{SStr}, SStr)
